@@ -201,6 +201,7 @@ def check_generator(ctx: Ctx, fi: FuncInfo) -> None:
                "every path; Controller receives the counter",
                construct="param counter protocol")
     _check_recycling(ctx, fi)
+    check_layer_protocol(ctx, fi)
 
 
 def _check_recycling(ctx: Ctx, fi: FuncInfo) -> None:
@@ -254,3 +255,315 @@ def _check_recycling(ctx: Ctx, fi: FuncInfo) -> None:
     ctx.ob("D16.4", fi, bad_node, ok,
            why or "input variables are recycled only after the layer's "
                   "neuron loop", construct="variable recycling")
+
+
+# ---------------------------------------------------------------------------
+# Abstract interpretation of the generator's variable bookkeeping
+# ---------------------------------------------------------------------------
+# Lists of variable names are abstracted to {tag: level} with tags
+#   IN   - outputs of the previous layer (or the cached state variables):
+#          exactly what the current layer must read
+#   OUT  - outputs produced by the layer being generated
+#   DEAD - variables whose value is no longer needed (safe to overwrite)
+# and levels none < some < all ("all" = contains every variable of that tag).
+def _join_level(a: str, b: str) -> str:
+    if a == b:
+        return a
+    if "some" in (a, b) or {a, b} == {"all", "none"}:
+        return "some"
+    return a
+
+
+class AbsLists:
+    TAGS = ("IN", "OUT", "DEAD")
+
+    def __init__(self) -> None:
+        self.lists: dict[str, dict[str, str]] = {}
+        self.scalars: dict[str, set[str]] = {}
+
+    def copy(self) -> "AbsLists":
+        c = AbsLists()
+        c.lists = {k: dict(v) for k, v in self.lists.items()}
+        c.scalars = {k: set(v) for k, v in self.scalars.items()}
+        return c
+
+    def join(self, o: "AbsLists") -> "AbsLists":
+        r = AbsLists()
+        for k in set(self.lists) | set(o.lists):
+            a = self.lists.get(k, _empty())
+            b = o.lists.get(k, _empty())
+            r.lists[k] = {t: _join_level(a[t], b[t]) for t in self.TAGS}
+        for k in set(self.scalars) | set(o.scalars):
+            r.scalars[k] = self.scalars.get(k, set()) | o.scalars.get(
+                k, set())
+        return r
+
+    def __eq__(self, o: object) -> bool:
+        return isinstance(o, AbsLists) and self.lists == o.lists and \
+            self.scalars == o.scalars
+
+
+def _empty() -> dict[str, str]:
+    return {t: "none" for t in AbsLists.TAGS}
+
+
+def check_layer_protocol(ctx: Ctx, fi: FuncInfo) -> None:
+    """O1-O3 of the layer bookkeeping, for every architecture at once."""
+    from sa.srcmodel import func_body
+    body = func_body(fi)
+    problems: list[tuple[ast.AST, str]] = []
+
+    def emits_assignment(s: ast.stmt) -> str | None:
+        """`write(f"{var} = ...")` -> 'var'."""
+        for n in ast.walk(s):
+            if isinstance(n, ast.Call) and n.args and isinstance(
+                    n.args[0], ast.JoinedStr):
+                v = n.args[0].values
+                if len(v) >= 2 and isinstance(
+                        v[0], ast.FormattedValue) and isinstance(
+                        v[0].value, ast.Name) and isinstance(
+                        v[1], ast.Constant) and str(
+                        v[1].value).startswith(" ="):
+                    return v[0].value.id
+        return None
+
+    def reads_inputs(s: ast.For) -> bool:
+        return isinstance(s.iter, ast.Name) and any(
+            isinstance(n, ast.Call) and n.args and isinstance(
+                n.args[0], ast.JoinedStr) and any(
+                isinstance(x, ast.FormattedValue) and isinstance(
+                    x.value, ast.Name) and isinstance(s.target, ast.Name)
+                and x.value.id == s.target.id for x in n.args[0].values)
+            for n in ast.walk(s))
+
+    layer_loop = None
+    for s in body:
+        if isinstance(s, ast.For) and any(
+                isinstance(x, ast.For) and any(
+                    isinstance(y, ast.For) and reads_inputs(y)
+                    for y in ast.walk(x) if y is not x)
+                for x in s.body):
+            layer_loop = s
+    if layer_loop is None:
+        ctx.ob("D16.4", fi, fi.node, False,
+               "cannot find the layer / neuron / input loop nest",
+               construct="layer bookkeeping")
+        return
+
+    in_layer = [False]
+    depth_neuron = [0]
+    # scalar names that are emitted as the left-hand side of a generated
+    # assignment inside the layer loop: the neuron output variables
+    out_names: set[str] = set()
+    for n in ast.walk(layer_loop):
+        if isinstance(n, ast.Expr):
+            v = emits_assignment(n)
+            if v is not None:
+                out_names.add(v)
+
+    def define_output(st: "AbsLists", name: str, tags: set[str],
+                      node: ast.AST) -> None:
+        live = tags - {"DEAD"}
+        if live:
+            problems.append(
+                (node, f"neuron output `{name}` may reuse a variable that "
+                       f"is still needed (tags {sorted(live)}): an input "
+                       "of this layer would be clobbered"))
+        st.scalars[name] = {"OUT"}
+
+    def exec_block(st: AbsLists, stmts: list[ast.stmt]) -> AbsLists:
+        for s in stmts:
+            st = exec_stmt(st, s)
+        return st
+
+    def tags_of(st: AbsLists, e: ast.expr) -> set[str]:
+        if isinstance(e, ast.Name) and e.id in st.scalars:
+            return set(st.scalars[e.id])
+        if isinstance(e, ast.JoinedStr):
+            return {"DEAD"}     # a brand-new variable name: nothing live
+        return set()
+
+    def exec_stmt(st: AbsLists, s: ast.stmt) -> AbsLists:
+        if isinstance(s, (ast.Assign, ast.AnnAssign)) and getattr(
+                s, "value", None) is not None:
+            tg = s.targets[0] if isinstance(s, ast.Assign) else s.target
+            v = s.value
+            if isinstance(tg, ast.Name) and isinstance(v, ast.List) and \
+                    not v.elts:
+                st.lists[tg.id] = _empty()
+                return st
+            if isinstance(tg, ast.Tuple) and isinstance(v, ast.Tuple) and \
+                    len(tg.elts) == len(v.elts) and all(
+                    isinstance(x, ast.Name) for x in tg.elts + v.elts):
+                src = [x.id for x in v.elts]
+                if all(n in st.lists for n in src):
+                    if len(set(src)) != len(src):
+                        problems.append((s, "two names alias one list"))
+                    vals = [dict(st.lists[n]) for n in src]
+                    for t, val in zip(tg.elts, vals):
+                        st.lists[t.id] = val
+                    return st
+            if isinstance(tg, ast.Name):
+                if isinstance(v, ast.Call) and isinstance(
+                        v.func, ast.Attribute) and v.func.attr == "pop" \
+                        and isinstance(v.func.value, ast.Name) and \
+                        v.func.value.id in st.lists:
+                    lst = st.lists[v.func.value.id]
+                    tags = {t for t in AbsLists.TAGS if lst[t] != "none"}
+                    st.scalars[tg.id] = tags
+                    for t in AbsLists.TAGS:
+                        if lst[t] == "all":
+                            lst[t] = "some"
+                    if in_layer[0] and tg.id in out_names:
+                        define_output(st, tg.id, tags, s)
+                    return st
+                if isinstance(v, ast.JoinedStr):
+                    # a new name; inside the layer loop it is dead until
+                    # emitted, outside (state cache) it is an input
+                    st.scalars[tg.id] = {"DEAD" if in_layer[0] else "IN"}
+                    if in_layer[0] and tg.id in out_names:
+                        define_output(st, tg.id, {"DEAD"}, s)
+                    return st
+                if isinstance(v, ast.Name) and v.id in st.lists:
+                    problems.append((s, f"`{tg.id}` aliases list `{v.id}`"))
+            return st
+        if isinstance(s, ast.Expr) and isinstance(s.value, ast.Call):
+            c = s.value
+            f = c.func
+            if isinstance(f, ast.Attribute) and isinstance(
+                    f.value, ast.Name) and f.value.id in st.lists:
+                lst = st.lists[f.value.id]
+                if f.attr == "append" and len(c.args) == 1:
+                    for t in tags_of(st, c.args[0]) or set(AbsLists.TAGS):
+                        lst[t] = "some" if lst[t] == "none" else lst[t]
+                elif f.attr == "extend" and len(c.args) == 1 and \
+                        isinstance(c.args[0], ast.Name) and \
+                        c.args[0].id in st.lists:
+                    o = st.lists[c.args[0].id]
+                    for t in AbsLists.TAGS:
+                        if o[t] == "all" or lst[t] == "all":
+                            lst[t] = "all"
+                        elif o[t] == "some" or lst[t] == "some":
+                            lst[t] = "some"
+                elif f.attr == "clear":
+                    st.lists[f.value.id] = _empty()
+                elif f.attr in ("pop", "remove"):
+                    for t in AbsLists.TAGS:
+                        if lst[t] == "all":
+                            lst[t] = "some"
+                return st
+            # an emission that defines a variable: the variable becomes OUT
+            return st
+        if isinstance(s, ast.If):
+            a = exec_block(st.copy(), s.body)
+            b = exec_block(st.copy(), s.orelse)
+            return a.join(b)
+        if isinstance(s, ast.For):
+            if reads_inputs(s):
+                lst = st.lists.get(s.iter.id)
+                if lst is None:
+                    problems.append((s, "inputs are not a tracked list"))
+                else:
+                    extra = [t for t in ("OUT", "DEAD")
+                             if lst[t] != "none"]
+                    if extra:
+                        problems.append(
+                            (s, f"`{s.iter.id}` may contain variables that "
+                                f"are not outputs of the previous layer "
+                                f"(tags {extra}): stale values are fed "
+                                "into this layer"))
+                    if lst["IN"] != "all":
+                        problems.append(
+                            (s, f"`{s.iter.id}` may miss outputs of the "
+                                "previous layer"))
+                return st
+            if s is layer_loop:
+                return exec_layers(st, s)
+            # generic loop: iterate to a fixpoint; unconditional appends
+            # of per-iteration elements make the list complete
+            head = st
+            end = st
+            for _ in range(6):
+                end = exec_block(head.copy(), s.body)
+                new = head.join(end)
+                if new == head:
+                    break
+                head = new
+            # completeness: a top-level `L.append(x)` of a variable created
+            # in this very iteration
+            for b in s.body:
+                if isinstance(b, ast.Expr) and isinstance(
+                        b.value, ast.Call) and isinstance(
+                        b.value.func, ast.Attribute) and \
+                        b.value.func.attr == "append" and isinstance(
+                        b.value.func.value, ast.Name) and len(
+                        b.value.args) == 1:
+                    ln = b.value.func.value.id
+                    tg = tags_of(end, b.value.args[0])
+                    if ln in head.lists and len(tg) == 1:
+                        t = next(iter(tg))
+                        created = any(
+                            isinstance(x, (ast.Assign, ast.AnnAssign))
+                            and isinstance(
+                                x.targets[0] if isinstance(x, ast.Assign)
+                                else x.target, ast.Name) and (
+                                x.targets[0] if isinstance(x, ast.Assign)
+                                else x.target).id == getattr(
+                                b.value.args[0], "id", None)
+                            for x in ast.walk(s))
+                        others_add = False
+                        if created and st.lists[ln][t] in ("none", "all") \
+                                and not others_add:
+                            head.lists[ln][t] = "all" if (
+                                st.lists[ln][t] == "none"
+                                or st.lists[ln][t] == "all") else "some"
+            return head
+        return st
+
+    def exec_layers(st: AbsLists, loop: ast.For) -> AbsLists:
+        in_layer[0] = True
+        head = st.copy()
+        for _ in range(8):
+            end = exec_block(head.copy(), loop.body)
+            # layer boundary: outputs become the next inputs, the old
+            # inputs die
+            for lst in end.lists.values():
+                new = _empty()
+                new["IN"] = lst["OUT"]
+                dead = lst["DEAD"]
+                if lst["IN"] != "none":
+                    dead = "some" if dead in ("none", "some") else dead
+                new["DEAD"] = dead
+                lst.update(new)
+            for k in end.scalars:
+                end.scalars[k] = {"DEAD"}
+            new_head = head.join(end)
+            if new_head == head:
+                break
+            head = new_head
+        in_layer[0] = False
+        return head
+
+    del depth_neuron
+    st = AbsLists()
+    final = exec_block(st, body)
+    del final
+    # de-duplicate messages
+    seen = set()
+    uniq = []
+    for node, why in problems:
+        if why not in seen:
+            seen.add(why)
+            uniq.append((node, why))
+    if uniq:
+        for node, why in uniq:
+            ctx.ob("D16.4", fi, node, False, why,
+                   construct="layer bookkeeping: " + why[:70])
+    else:
+        ctx.ob("D16.4", fi, layer_loop, True,
+               "abstract interpretation of the variable lists (tags IN / "
+               "OUT / DEAD, levels none/some/all) to a fixpoint over the "
+               "layer loop: every layer reads exactly the previous layer's "
+               "outputs, neuron outputs only overwrite dead variables, and "
+               "the output layer reads exactly the last hidden layer",
+               construct="layer bookkeeping")
